@@ -91,6 +91,15 @@ func c12Extract(p *types.Project, row, svc string) (string, bool) {
 	return "", false
 }
 
+// c12Loader is a remote resource loader owning the references that start with its prefix.
+type c12Loader struct{ prefix, dir string }
+
+func (l c12Loader) Accept(p string) bool { return strings.HasPrefix(p, l.prefix) }
+func (l c12Loader) Load(_ context.Context, p string) (string, error) {
+	return filepath.Join(l.dir, strings.TrimPrefix(p, l.prefix)), nil
+}
+func (l c12Loader) Dir(string) string { return l.dir }
+
 func C12(c *core.Ctx) {
 	c.Assumption("TLC 1.8.0; spec/tree/PathsResolve.tla; HOME is pinned to /home/verifuser for the run; replay through loader.LoadWithContext on real directories")
 	os.Setenv("HOME", "/home/verifuser")
@@ -116,7 +125,7 @@ func C12(c *core.Ctx) {
 			return nil
 		}
 		topLevel := row == "secrets.file" || row == "configs.file" || row == "volume.driver_opts.device"
-		if origin == "extends" && topLevel {
+		if (origin == "extends" || origin == "extends-fork" || origin == "include-sibling") && topLevel {
 			skipped++
 			return nil
 		}
@@ -124,7 +133,7 @@ func C12(c *core.Ctx) {
 		R := filepath.Join(root, fmt.Sprint(n))
 		proj := filepath.Join(R, "r1", "r2", "proj")
 		defer os.RemoveAll(R)
-		for _, d := range []string{"", "inc", "sub"} {
+		for _, d := range []string{"", "inc", "sub", "inc/deep"} {
 			_ = os.MkdirAll(filepath.Join(proj, d), 0o755)
 		}
 		want := asStr(cs["below"])
@@ -137,8 +146,21 @@ func C12(c *core.Ctx) {
 		}
 		svcBody, top := c12Body(row, shape)
 		svcName := "a"
+		also := "" // a second service that must carry the same resolved value
 		var mainDoc string
 		switch origin {
+		case "include2":
+			mainDoc = "include:\n  - inc/compose.yaml\nservices:\n  main: {image: img}\n"
+			_ = os.WriteFile(filepath.Join(proj, "inc", "compose.yaml"), []byte("include:\n  - deep/compose.yaml\nservices:\n  mid: {image: img}\n"), 0o644)
+			_ = os.WriteFile(filepath.Join(proj, "inc", "deep", "compose.yaml"), []byte("services:\n  a:\n    "+svcBody+"\n"+top), 0o644)
+		case "include-sibling":
+			mainDoc = "include:\n  - inc/compose.yaml\nservices:\n  main: {image: img}\n"
+			_ = os.WriteFile(filepath.Join(proj, "inc", "compose.yaml"), []byte("services:\n  a:\n    "+svcBody+"\n  a2:\n    extends: {service: a}\n"), 0o644)
+			also = "a2"
+		case "extends-fork":
+			mainDoc = "services:\n  a:\n    extends: {file: sub/base.yaml, service: b}\n  a2:\n    extends: {service: a}\n  a0:\n    extends: {service: a}\n"
+			_ = os.WriteFile(filepath.Join(proj, "sub", "base.yaml"), []byte("services:\n  b:\n    "+svcBody+"\n"), 0o644)
+			also = "a2"
 		case "main":
 			mainDoc = "services:\n  a:\n    " + svcBody + "\n" + top
 		case "include":
@@ -171,6 +193,11 @@ func C12(c *core.Ctx) {
 		}
 		if enforced && got != want {
 			c.Report(core.Finding{Sig: "resolve:" + row + ":" + class + ":" + origin, Detail: fmt.Sprintf("%s resolves to %q; the rules define %q", key, got, want), Replay: rep})
+		}
+		if also != "" && enforced {
+			if g2, ok := c12Extract(p, row, also); !ok || g2 != want {
+				c.Report(core.Finding{Sig: "resolve:" + row + ":" + class + ":" + origin, Detail: fmt.Sprintf("%s: the service extending it resolves to %q; the rules define %q", key, g2, want), Replay: rep})
+			}
 		}
 		if origin == "main" {
 			// resolution off: left as written
@@ -247,6 +274,53 @@ networks:
 		}
 		chk("volume driver_opts (non-local driver)", p.Volumes["data"].DriverOpts["device"], "./dev")
 		chk("network driver_opts", p.Networks["default"].DriverOpts["p"], "./x")
+	}
+	// ---- references recognised by a registered remote loader are left as written (every loader, not only the last one)
+	{
+		RR := filepath.Join(root, "remote")
+		store := filepath.Join(RR, "store")
+		_ = os.MkdirAll(filepath.Join(RR, "proj", "sub"), 0o755)
+		_ = os.MkdirAll(store, 0o755)
+		_ = os.WriteFile(filepath.Join(store, "base.yaml"), []byte("services:\n  x: {image: remote-img}\n"), 0o644)
+		_ = os.WriteFile(filepath.Join(RR, "proj", "local.yaml"), []byte("services:\n  x: {image: local-img}\n"), 0o644)
+		loaders := []loader.ResourceLoader{c12Loader{"alpha:", store}, c12Loader{"beta:", store}, c12Loader{"gamma:", store}}
+		withLoaders := func(skipExtends bool) func(o *loader.Options) {
+			return func(o *loader.Options) {
+				o.ResourceLoaders = append(o.ResourceLoaders, loaders...)
+				o.SkipExtends = skipExtends
+			}
+		}
+		rdoc := "services:\n  a: {image: img, extends: {file: \"alpha:base.yaml\", service: x}}\n  b: {image: img, extends: {file: \"beta:base.yaml\", service: x}}\n  g: {image: img, extends: {file: \"gamma:base.yaml\", service: x}}\n  l: {image: img, extends: {file: ./local.yaml, service: x}}\n"
+		c.Eval("remote references kept", true)
+		pr, er := safeLoad(filepath.Join(RR, "proj"), nil, []namedDoc{{Name: filepath.Join(RR, "proj", "compose.yaml"), Content: rdoc}}, withLoaders(true))
+		if er != nil {
+			c.Report(core.Finding{Sig: "remote-load-error", Detail: "a model whose extends references are owned by registered remote loaders does not load (extends not applied): " + er.Error(), Replay: rdoc})
+		} else {
+			for svc, want := range map[string]string{"a": "alpha:base.yaml", "b": "beta:base.yaml", "g": "gamma:base.yaml", "l": filepath.Join(RR, "proj", "local.yaml")} {
+				got := ""
+				if e := pr.Services[svc].Extends; e != nil {
+					got = e.File
+				}
+				if got != want {
+					c.Report(core.Finding{Sig: "remote-reference-rewritten", Detail: fmt.Sprintf("extends.file of service %s is %q after path resolution; expected %q (a reference owned by a registered remote loader is left as written, a local one is resolved)", svc, got, want), Replay: rdoc})
+				}
+			}
+		}
+		// the same references inside a local extended file of another directory, extends applied
+		_ = os.WriteFile(filepath.Join(RR, "proj", "sub", "mid.yaml"), []byte("services:\n  ma: {extends: {file: \"alpha:base.yaml\", service: x}}\n  mb: {extends: {file: \"beta:base.yaml\", service: x}}\n  mg: {extends: {file: \"gamma:base.yaml\", service: x}}\n"), 0o644)
+		mdoc := "services:\n  a: {extends: {file: sub/mid.yaml, service: ma}}\n  b: {extends: {file: sub/mid.yaml, service: mb}}\n  g: {extends: {file: sub/mid.yaml, service: mg}}\n"
+		c.Eval("remote references through a local extended file", true)
+		pm, em := safeLoad(filepath.Join(RR, "proj"), nil, []namedDoc{{Name: filepath.Join(RR, "proj", "compose.yaml"), Content: mdoc}}, withLoaders(false))
+		if em != nil {
+			c.Report(core.Finding{Sig: "remote-reference-rewritten", Detail: "a remote reference inside a local extended file of another directory is not reachable any more: " + em.Error(), Replay: mdoc})
+		} else {
+			for _, svc := range []string{"a", "b", "g"} {
+				if pm.Services[svc].Image != "remote-img" {
+					c.Report(core.Finding{Sig: "remote-reference-rewritten", Detail: fmt.Sprintf("service %s extends a remote base through a local file but has image %q", svc, pm.Services[svc].Image), Replay: mdoc})
+				}
+			}
+		}
+		n += 2
 	}
 	c.AddTraces(int64(n + 1))
 	c.Set("cases", n)
